@@ -30,7 +30,7 @@ ASSUMPTIONS = [
     'C-implemented callables without signatures are out of scope',
 ]
 BUDGET = {'quick': 16 * 2000, 'thorough': 16 * 15000}
-FLOORS = {'gap': 0.05, 'nested_in_container': 0.05, 'required_missing': 0.03}
+FLOORS = {'gap': 0.037, 'nested_in_container': 0.042, 'required_missing': 0.03}
 
 
 @st.composite
